@@ -231,6 +231,33 @@ func RecursesInLoop(f *ssa.Function) bool {
 	rec := false
 	WithHost(f, func() {
 		loopCalled := map[*ssa.Function]bool{}
+		// f (or a closure calling f) handed to an element-wise helper of the standard library (slices.EqualFunc,
+		// slices.ContainsFunc, slices.IndexFunc, ...): the helper applies it to the elements in its own loop
+		for _, c := range Calls(f) {
+			sc := c.Common().StaticCallee()
+			if sc == nil || !strings.HasPrefix(CalleeKey(c), "slices.") {
+				continue
+			}
+			for _, a := range c.Common().Args {
+				for _, o := range append(Origins(a), a) {
+					switch g := o.(type) {
+					case *ssa.Function:
+						if g == f {
+							rec = true
+						} else if g.Parent() != nil {
+							loopCalled[g] = true
+						}
+					case *ssa.MakeClosure:
+						if fn, ok := g.Fn.(*ssa.Function); ok {
+							loopCalled[fn] = true
+						}
+					}
+				}
+			}
+		}
+		if rec {
+			return
+		}
 		for _, c := range Calls(f) {
 			if !OnCycle(c) && !loopCalled[c.Parent()] {
 				continue
